@@ -19,6 +19,7 @@ mod wl_life;
 mod wl_prog;
 mod wl_race;
 mod wl_seq;
+mod wl_serde;
 mod wl_wrap;
 
 use arc_swap::strategy::test_strategies::FillFastSlots;
@@ -43,6 +44,7 @@ fn main() {
         "prog" => cmd_prog(&args),
         "wrap" => cmd_wrap(&args),
         "access" => cmd_access(&args),
+        "serde" => cmd_serde(&args),
         "kinds" => cmd_kinds(&args),
         "selftest" => cmd_selftest(&args),
         other => {
@@ -483,6 +485,23 @@ fn cmd_access(a: &Args) -> i32 {
     if live != 0 {
         runner::violation("C02", "leak", format!("{} root value(s) alive after everything was dropped", live), &json!({"workload": "access", "seed": seed, "shard": shard}));
     }
+    0
+}
+
+/// serde transparency (C20). Keys: values, seed, shard.
+fn cmd_serde(a: &Args) -> i32 {
+    sched::set_mode(Mode::Off);
+    let n = a.u64("values", 200);
+    let seed = a.u64("seed", 1) * 1000 + a.u64("shard", 0);
+    let (vals, checks) = wl_serde::run(seed, n);
+    runner::with(|r| {
+        r.execs = vals;
+        r.ops = checks;
+    });
+    runner::count("serde.values", vals);
+    runner::count("serde.law_checks", checks);
+    let d = runner::with(|r| r.distinct.len() as u64);
+    runner::count("distinct_nontrivial", d);
     0
 }
 
